@@ -105,6 +105,12 @@ func genRoles(g *Rand, fl seqFlavour) wamp.Dict {
 				delete(ce, f)
 			}
 		}
+		if g.Chance(1, 4) {
+			delete(ce, "progressive_call_invocations")
+		}
+		if g.Chance(1, 5) {
+			delete(all["caller"].(wamp.Dict)["features"].(wamp.Dict), "progressive_call_invocations")
+		}
 	}
 	return all
 }
@@ -220,13 +226,20 @@ func genSeqOps(g *Rand, fl seqFlavour, nslots, n int, thorough bool) []SOp {
 		default:
 			w = []int{2, 3, 5, 3, 6, 6, 3, 7, 5, 2, 3, 0}
 		}
-		for len(w) < 14 {
+		for len(w) < 15 {
 			w = append(w, 0)
 		}
 		if fl == seqC10 {
 			w[13] = 4
 		}
-		kind := []string{"join", "leave", "sub", "unsub", "pub", "reg", "unreg", "call", "yield", "inverr", "cancel", "meta", "sleep", "refburst"}[g.Weighted(w...)]
+		// further chunks of progressive call invocations
+		switch fl {
+		case seqC03, seqC13:
+			w[14] = 4
+		case seqC12, seqC05, seqC11, seqC15:
+			w[14] = 2
+		}
+		kind := []string{"join", "leave", "sub", "unsub", "pub", "reg", "unreg", "call", "yield", "inverr", "cancel", "meta", "sleep", "refburst", "chunk"}[g.Weighted(w...)]
 		op.Kind = kind
 		uniq++
 		switch kind {
@@ -366,10 +379,17 @@ func genSeqOps(g *Rand, fl seqFlavour, nslots, n int, thorough bool) []SOp {
 			if fl == seqC13 && g.Chance(2, 3) {
 				op.Opts["timeout"] = []int{1, 2, 5, 100, 1000, 5000, 30000}[g.Intn(7)]
 			}
+			if w[14] > 0 && g.Chance(1, 4) {
+				op.Opts["progress"] = true // first chunk of a progressive call invocation
+			}
 			op.Args = wamp.List{fmt.Sprintf("c%d", uniq), uniq}
 			if g.Chance(1, 3) {
 				op.Kw = wamp.Dict{"k": uniq}
 			}
+		case "chunk":
+			op.K = g.Intn(8)
+			op.Prog = g.Chance(1, 2) // more to come
+			op.Args = wamp.List{fmt.Sprintf("k%d", uniq), uniq}
 		case "yield":
 			op.K = g.Intn(8)
 			op.Var = g.Weighted(8, 2, 1)
